@@ -158,9 +158,11 @@ pub fn gen_cons(rng: &mut Rng, n_wallcons: usize, n_wincons: usize) -> ConsDb {
         let layers = (0..nl)
             .map(|_| Layer {
                 material: db.materials[rng.usize(nmat)].id,
-                e: match rng.usize(6) {
-                    0 => 0.005,
-                    1 => 0.3,
+                // a thickness of exactly 0 is legitimate (air gaps and membranes given by their resistance carry it)
+                e: match rng.usize(12) {
+                    0 | 1 => 0.005,
+                    2 | 3 => 0.3,
+                    4 => 0.0,
                     _ => rng.dec(0.005, 0.25, 3) as f32,
                 },
             })
